@@ -10,7 +10,7 @@
    (batchMessages re-checks w.closed under w.mutex — fix of defect F3 — so no partition writer
    is created after Close and a partition is served by one partition writer in every run.) *)
 From Coq Require Import List NArith Bool Arith.
-From KV Require Import Lib.LTS Model.Writer Proofs.WriterStmts Proofs.WriterC07 Proofs.WriterHolds7.
+From KV Require Import Lib.LTS Model.Writer Proofs.WriterStmts Proofs.WriterC07 Proofs.WriterHolds7 Proofs.WriterInFlight.
 Import ListNotations.
 
 (* Every copy of an earlier batch precedes every copy of a later one: if no produce request
@@ -45,6 +45,24 @@ Theorem C07_retries_contiguous :
     (a_tp a = a_tp b -> a_pw a = a_pw b).
 Proof. exact C07_retries_contiguous_proof. Qed.
 Print Assumptions C07_retries_contiguous.
+
+(* One produce round trip per partition in flight: the sender goroutine starts attempt k+1 of a
+   batch only after the round trip of attempt k has RETURNED (an attempt and its answer are one
+   step of the transition system; Writer.produce calls Client.Produce synchronously — no
+   goroutine, no select on ctx.Done()): the attempts started for the batch being sent are exactly
+   its journalled round trips, and no batch still queued or open has any.  So an attempt can never
+   land after a later attempt or a later batch.  (On the implementation: the late-landing family —
+   a RoundTripper that ignores context expiry and holds one produce — and the fake's check that
+   no two produce round trips of a partition overlap.) *)
+Theorem C07_one_round_trip_in_flight :
+  forall cfg ls s, run (step cfg) init ls = Some s ->
+  forall p pw, nth_error (s_pws s) p = Some pw ->
+    (forall sd, pw_snd pw = Some sd ->
+       length (filter (fun a => Nat.eqb (a_pw a) p && Nat.eqb (a_k a) (b_k (sd_batch sd))) (s_journal s)) = sd_att sd) /\
+    (forall b, In b (pw_queue pw ++ opt_list (pw_curr pw)) ->
+       filter (fun a => Nat.eqb (a_pw a) p && Nat.eqb (a_k a) (b_k b)) (s_journal s) = []).
+Proof. exact C07_one_round_trip_in_flight_proof. Qed.
+Print Assumptions C07_one_round_trip_in_flight.
 
 (* The extracted boolean predicate that the correspondence run evaluates on every recorded
    real history (per goroutine and partition: the applied produce requests, projected on the
